@@ -1,1 +1,147 @@
-import Simfile.Spec.Notes
+/-
+C07 — the note-data decoder reads every well-formed text as the notes it denotes, in strictly
+increasing (player, beat, column) order. Property theorems only; lemmas live in Simfile/Lemmas/.
+-/
+import Simfile.Lemmas.NotesSpec
+import Simfile.Lemmas.NotesDecode
+namespace Simfile.C07
+open Simfile
+
+/-! ### 1. the four comparison operators are the lexicographic order on (player, beat, column) -/
+
+theorem operators_agree (a b : Note) :
+    (a.lt b = keyLt a.key b.key) ∧ (a.gt b = keyLt b.key a.key) ∧
+    (a.le b = keyLe a.key b.key) ∧ (a.ge b = keyLe b.key a.key) := ⟨rfl, rfl, rfl, rfl⟩
+
+/-- `keyLt` is the strict lexicographic order -/
+theorem keyLt_lex (a b : Nat × Rat × Nat) :
+    keyLt a b = true ↔ (a.1 < b.1 ∨ (a.1 = b.1 ∧ (a.2.1 < b.2.1 ∨ (a.2.1 = b.2.1 ∧ a.2.2 < b.2.2)))) :=
+  keyLt_iff a b
+
+/-- `keyLe` is its reflexive closure -/
+theorem keyLe_eq_lt_or_eq (a b : Nat × Rat × Nat) : keyLe a b = (keyLt a b || decide (a = b)) :=
+  keyLe_eq a b
+
+theorem keyLt_irrefl (a : Nat × Rat × Nat) : keyLt a a = false := Simfile.keyLt_irrefl a
+
+theorem keyLt_trans {a b c : Nat × Rat × Nat} (h1 : keyLt a b = true) (h2 : keyLt b c = true) :
+    keyLt a c = true := Simfile.keyLt_trans h1 h2
+
+theorem keyLt_total (a b : Nat × Rat × Nat) : keyLt a b = true ∨ a = b ∨ keyLt b a = true :=
+  Simfile.keyLt_total a b
+
+/-- consequently `<`/`>` and `≤`/`≥` on notes are each other's converses and `≤` is `¬ >` -/
+theorem le_iff_not_gt (a b : Note) : a.le b = !(a.gt b) := by
+  simp only [Note.le, Note.gt]
+  rw [keyLe_eq]
+  rcases Simfile.keyLt_total a.key b.key with h | h | h
+  · simp [h, keyLt_asymm h]
+  · simp [h, Simfile.keyLt_irrefl]
+  · have h' := keyLt_asymm h
+    have hne : a.key ≠ b.key := by
+      intro e; rw [e, Simfile.keyLt_irrefl] at h; exact absurd h (by decide)
+    simp [h, h', hne]
+
+/-! ### 3. the beat of a note is 4·measure + 4·row/rows -/
+
+/-- every note of measure `m` comes from a non-'0' cell in some row `l`, column `c`, and its beat is
+`4*m + 4*l/rows` -/
+theorem beat_formula (p m : Nat) (ms : Spec.DMeasure) (n : Note) (hn : n ∈ Spec.notesOfMeasure p m ms) :
+    ∃ (l : Nat) (r : Spec.DRow) (c : Nat) (cell : Spec.Cell), ms.rows[l]? = some r ∧ r.cells[c]? = some cell ∧ cell.ch ≠ '0' ∧
+      n.beat = 4 * (m : Rat) + 4 * (l : Rat) / (ms.rows.length : Rat) ∧
+      n.player = p ∧ n.column = c ∧ n.ntype = cell.ch ∧ n.keysound = cell.ks := by
+  rw [Spec.mem_notesOfMeasure] at hn
+  obtain ⟨l, r, hl, hn⟩ := hn
+  rw [Spec.mem_notesOfRow] at hn
+  obtain ⟨c, cell, hc, hne, rfl⟩ := hn
+  have hlt := (List.getElem?_eq_some_iff.mp hl).1
+  exact ⟨l, r, c, cell, hl, hc, hne, Spec.rowBeat_eq _ _ _ (by omega), rfl, rfl, rfl, rfl⟩
+
+/-- conversely every non-'0' cell gives its note -/
+theorem beat_formula_conv (p m : Nat) (ms : Spec.DMeasure) (l c : Nat) (r : Spec.DRow) (cell : Spec.Cell)
+    (hl : ms.rows[l]? = some r) (hc : r.cells[c]? = some cell) (hne : cell.ch ≠ '0') :
+    { beat := 4 * (m : Rat) + 4 * (l : Rat) / (ms.rows.length : Rat), column := c, ntype := cell.ch,
+      player := p, keysound := cell.ks : Note } ∈ Spec.notesOfMeasure p m ms := by
+  rw [Spec.mem_notesOfMeasure]
+  refine ⟨l, r, hl, ?_⟩
+  rw [Spec.mem_notesOfRow]
+  have hlt := (List.getElem?_eq_some_iff.mp hl).1
+  exact ⟨c, cell, hc, hne, by rw [Spec.rowBeat_eq _ _ _ (by omega)]⟩
+
+/-- the beats of measure `m` lie in `[4m, 4m+4)` -/
+theorem beat_in_measure (p m : Nat) (ms : Spec.DMeasure) (n : Note) (hn : n ∈ Spec.notesOfMeasure p m ms) :
+    4 * (m : Rat) ≤ n.beat ∧ n.beat < 4 * ((m : Rat) + 1) := (Spec.notesOfMeasure_attrs hn).2
+
+/-! ### 2. notes come out strictly sorted by (player, beat, column) -/
+
+/-- holds for every chart, well-formed or not -/
+theorem strictly_sorted_all (c : Spec.DChart) :
+    (Spec.notesOf c).Pairwise (fun a b => keyLt a.key b.key = true) := Spec.notesOf_sorted c
+
+theorem strictly_sorted (c : Spec.DChart) (_h : Spec.WF c = true) :
+    (Spec.notesOf c).Pairwise (fun a b => keyLt a.key b.key = true) := Spec.notesOf_sorted c
+
+/-! ### 4, 5. the decoder on rendered charts -/
+
+/-- a concrete chart: two players, three rows (odd) in the first measure, a keysounded note, CRLF and LF
+line ends, blanks around rows and measures, a last row without line end -/
+def sample : Spec.DChart :=
+  [ [ { pre := [' ', '\n'],
+        rows := [ { cells := [⟨'1', none⟩, ⟨'0', none⟩, ⟨'M', some 12⟩], lead := [' '], eol := ['\r', '\n'] },
+                  { cells := [⟨'0', none⟩, ⟨'2', some 0⟩, ⟨'0', none⟩], trail := ['\t'] },
+                  { cells := [⟨'0', none⟩, ⟨'3', none⟩, ⟨'L', none⟩], eol := [] } ],
+        post := ['\n'] },
+      { rows := [ { cells := [⟨'0', none⟩, ⟨'0', none⟩, ⟨'0', none⟩] } ] } ],
+    [ { rows := [ { cells := [⟨'0', none⟩, ⟨'0', none⟩, ⟨'0', none⟩] },
+                  { cells := [⟨'F', some 7⟩, ⟨'0', none⟩, ⟨'4', none⟩], eol := [] } ] } ] ]
+
+example : Spec.WF sample = true := by decide
+example : firstLineOk sample = true := by decide
+example : String.ofList (Spec.render sample) = " \n 10M[12]\r\n02[0]0\t\n03L\n,000\n&000\nF[7]04" := by decide
+example : (Spec.notesOf sample).length = 7 := by decide
+
+/-- `decodeWith`, given the right column count, reads every well-formed text as the notes it denotes
+(any decoration, any number of players, measures, rows, columns, keysounds) -/
+theorem decodeWith_render (c : Spec.DChart) (h : Spec.WF c = true) :
+    decodeWith (Spec.cols c) (Spec.render c) = .ok (Spec.notesOf c) := Spec.decodeWith_render c h
+
+/-- the column count is read off the first line. Besides `WF` this needs `firstLineOk`: the first line
+must end before the first '&' (see `wf_not_enough`). -/
+theorem columns (c : Spec.DChart) (h : Spec.WF c = true) (hf : firstLineOk c = true) :
+    getColumns (Spec.render c) = .ok (Spec.cols c) := Spec.getColumns_render c h hf
+
+/-- main theorem -/
+theorem decode_render (c : Spec.DChart) (h : Spec.WF c = true) (hf : firstLineOk c = true) :
+    decode (Spec.render c) = .ok (Spec.cols c, Spec.notesOf c) := Spec.decode_render c h hf
+
+/-- the statement with `WF` alone … -/
+def decode_render_statement : Prop :=
+  ∀ c : Spec.DChart, Spec.WF c = true → decode (Spec.render c) = .ok (Spec.cols c, Spec.notesOf c)
+
+/-- … is false: "10&01\n" is well-formed for the spec (two players, one measure of one row each, the
+first row without line end), but its first line is "10&01", so `getColumns` answers 5, not 2. -/
+def wfCounterExample : Spec.DChart :=
+  [[{ rows := [{ cells := [⟨'1', none⟩, ⟨'0', none⟩], eol := [] }] }],
+   [{ rows := [{ cells := [⟨'0', none⟩, ⟨'1', none⟩] }] }]]
+
+theorem wf_not_enough : ¬ decode_render_statement := by
+  intro h
+  have h1 := h wfCounterExample (by decide)
+  have hg : getColumns (Spec.render wfCounterExample) = .ok 5 := by rfl
+  have hc : Spec.cols wfCounterExample = 2 := by decide
+  unfold decode at h1
+  rw [hg, hc] at h1
+  simp only [bind, Except.bind] at h1
+  cases hd : decodeWith 5 (Spec.render wfCounterExample) with
+  | error e => rw [hd] at h1; simp at h1
+  | ok ns => rw [hd] at h1; simp [pure, Except.pure] at h1
+
+example : Spec.WF wfCounterExample = true ∧ firstLineOk wfCounterExample = false ∧
+    getColumns (Spec.render wfCounterExample) = .ok 5 ∧ Spec.cols wfCounterExample = 2 :=
+  ⟨by decide, by decide, by rfl, by decide⟩
+
+/-- the decoded notes of the sample chart -/
+example : decode (Spec.render sample) = .ok (3, Spec.notesOf sample) :=
+  decode_render sample (by decide) (by decide)
+
+end Simfile.C07
